@@ -204,13 +204,30 @@ def register(props):
                 "chain Unserialize, Validate, Serialize, re-Unserialize, re-Serialize, real cbor.Marshal/Unmarshal, Unserialize; c01typed / "
                 "c01typedobj: every typed constructor's UnserializeType / ValidateType / SerializeType against the untyped call on the same "
                 "instance; distinct by case text; non-trivial = accepted by Unserialize and not a bare scalar",
-        "assumptions": ["no two raw map keys denote the same unserialized key (D19, a known-finding class of C12)",
+        "assumptions": ["no two entries of one raw map denote the same key under the schema at that position (Schema/C01Spec.v distinct_in; D19, a "
+                        "known-finding class of C12); necessary: C01_roundtrip_collision_refuted",
+                        "every integer of the unserialized value lies in the range of its Go type (ints_in_range: true of every Go value)",
+                        "under a one-of: the `any` data is what AnySchema.ValidateCompatibility accepts (any_clean: homogeneous []any, map[any]any "
+                        "keyed by int64 only or string only); necessary: C01_roundtrip_oneof_any_refuted, reproduced on the SDK",
                         "struct-mapped objects: the struct-mapped extension of the model (another work package); here only typed == untyped on the SDK"],
-        "level_text": "Theorems: the typed entry points are the untyped ones followed by a type assertion that cannot fail on an Ok result (never "
-                      "Panic, same result) for every schema; the round trip (Validate ok, Serialize ok and wire-formed, re-Unserialize equal, "
-                      "re-Serialize identical, invariant under CBOR normalisation) for the scalar kinds, enums, pattern and lists/maps of them by "
-                      "induction; objects, one-of, references and `any` are stated in full and carried by the correspondence + the direct check.",
+        "level_text": "Theorems (Properties/C01.v, all closed under the global context). C01_roundtrip, by induction on the fuel of the successful "
+                      "Unserialize, for EVERY schema kind - int, float, string, bool, pattern, any, both enums, list, map, map-based object "
+                      "(defaults, presence rules, one-property shorthand), reference, scope, nested in any way through scopes and namespaces, and "
+                      "one-of (int or string keys; members objects / references / scopes) with a non-inlined discriminator or an inlined one of a "
+                      "plain type (int / int enum without units, string, un-named string enum): wf_schema, "
+                      "distinct_in (schema-directed no-key-collision) and ints_in_range imply, at every fuel >= 2f, Validate ok, Serialize gives "
+                      "w in strong wire form (swire), Unserialize w = n with plain equality (which implies equality up to map order), the same "
+                      "after cbor_norm to any depth, re-Serialize gives w again. C01_serialize_emits_wire (any schema, any input), "
+                      "C01_cbor_norm_wire (+ _shape), C01_swire_wire_decodable, the typed-entry theorems, C01_roundtrip_partial (scalars and lists "
+                      "without well-formedness / distinctness hypotheses). Refutations showing the hypotheses necessary: "
+                      "C01_roundtrip_collision_refuted (D19), C01_roundtrip_oneof_any_refuted and C01_roundtrip_inlined_named_refuted (two "
+                      "findings of the proof, both reproduced on the Go code: OneOf.Validate / Serialize reject what OneOf.Unserialize returned). "
+                      "STILL PARTIAL: a one-of whose INLINED discriminator property has units or a named string type is outside the theorem "
+                      "(c01_scope; the statement is false there for named types); there and for struct-mapped objects the chain is carried by "
+                      "the correspondence + the direct check only.",
         "level_note": "Model = Schema/Ops.v + Schema/Cbor.v (cbor_norm), hand-written; the real fxamacker/cbor encode/decode is run on every "
-                      "serialized form and compared with cbor_norm.",
+                      "serialized form and compared with cbor_norm. The model's maps are ordered association lists, so the theorem's `=` is "
+                      "stronger than the property's equality up to map order; Go's iteration order is covered by C12 (order independence under "
+                      "the same no-collision hypothesis).",
         "design_ref": "DESIGN.md §5 C01",
     }
